@@ -45,9 +45,11 @@ TREE = {
     "build/a/config.h": "#define CFG_A 1\ncbi_m_cfga_2;\n",
     "build/b/config.h": "#define CFG_B 1\ncbi_m_cfgb_2;\n",
     "build/obj.o": "\x7fELF",
+    "gpu/kernel.hip": "__global__ void k();\n",
+    "gpu/notes.md": "# notes\n",
     "build/gen.txt": "x\n",
 }
-DIRS = ["src", "src/sub", "inc", "inc2", "other", "build", "build/deep", "build/a", "build/b", "my inc", "cfg"]
+DIRS = ["src", "src/sub", "inc", "inc2", "other", "build", "build/deep", "build/a", "build/b", "my inc", "cfg", "gpu"]
 
 
 def bounds(tier):
@@ -67,6 +69,7 @@ def required_cells(tier):
               "gcc-confirmed", "class:grid", "class:random", "same-spelling-different-build-dirs", "forced-include:rel",
               "forced-include:abs", "forced-include:dots", "search-dir-with-blank:command", "search-dir-with-blank:arguments",
               "header-compiled-on-its-own", "compiled-files-excluded-by-pattern", "skip:missing-long-name", "skip:missing-below-a-file",
+              "skip:non-source:hip", "skip:non-source:md", "dependency-generation-options",
               "cli:logical-working-directory"]
     return cells
 
@@ -145,6 +148,9 @@ SKIPS = {
     "missing": lambda root: {"file": "src/generated_later.c", "directory": root, "arguments": ["gcc", "-c", "src/generated_later.c"]},
     "object": lambda root: {"file": "build/obj.o", "directory": root, "arguments": ["gcc", "-c", "build/obj.o"]},
     "link": lambda root: {"file": "build/app", "directory": root, "command": "gcc -o build/app build/obj.o"},
+    # files whose extension is not a source extension (whatever compiler the entry names)
+    "non-source:hip": lambda root: {"file": "gpu/kernel.hip", "directory": root, "arguments": ["hipcc", "-c", "gpu/kernel.hip"]},
+    "non-source:md": lambda root: {"file": "gpu/notes.md", "directory": root, "arguments": ["gcc", "-c", "gpu/notes.md"]},
     "empty-command": lambda root: {"file": "src/a.c", "directory": root, "command": ""},
     "empty-arguments": lambda root: {"file": "src/a.c", "directory": root, "arguments": []},
     "blank-command": lambda root: {"file": "src/a.c", "directory": root, "command": " "},
@@ -163,8 +169,10 @@ def gcc_truth(meta):
     for a in meta["argv"][1:]:
         if skip:
             skip = False
-        elif a == "-o":
+        elif a in ("-o", "-MF", "-MT", "-MQ"):
             skip = True          # the output file of the real command is irrelevant for -E to stdout
+        elif a in ("-M", "-MM", "-MD", "-MMD", "-MP", "-MG"):
+            pass                 # dependency generation replaces / accompanies the output, it does not change what is read
         elif a != "-c":
             argv.append(a)
     rc, out, err = gcc.run(gcc.BASE + ["-P"] + argv, cwd=meta["wd"])
@@ -197,6 +205,8 @@ def check_db(ctx, base, root, entries, metas, skips, cls):
                 cells.add("forced-include:" + m["pre"])
             if "c-header" in " ".join(m["argv"]):
                 cells.add("header-compiled-on-its-own")
+            if any(a in ("-M", "-MM", "-MD") for a in m["argv"]):
+                cells.add("dependency-generation-options")
             if m["src"] == "src/d.c":
                 cells.add("search-dir-with-blank:" + ("command" if "command" in entries[metas.index(m)] else "arguments"))
             cells.add("directory:" + m["dstyle"])
@@ -456,7 +466,8 @@ def run_shard(ctx):
                                   rng.choice(["abs", "rel", "dots", "via-link"]), rng.choice(["abs", "rel", "dots"]),
                                   defines=rng.choice([[], ["X"], ["X=1", "Y"]]), form=rng.choice(["arguments", "command"]),
                                   pre=rng.choice([None, None, "rel", "abs", "dots"]),
-                                  extra=rng.choice([(), (), ("-x", "c"), ("-xc",), ("-x", "c-header"), ("-O2", "-o", "out.o")]))
+                                  extra=rng.choice([(), (), ("-x", "c"), ("-xc",), ("-x", "c-header"), ("-O2", "-o", "out.o"), ("-MM",), ("-M", "-MF", "deps.d"),
+                                                    ("-MD", "-MP", "-MT", "tgt.o")]))
                 es.append(e)
                 ms.append(m)
         if ctx.mine(i):
